@@ -45,6 +45,7 @@ def reviewed : List Entry := [
   ⟨"taskfile:CacheNode.CreateCacheDir", "os.MkdirAll", .remoteCache⟩,
   ⟨"taskfile:CacheNode.Write", "os.WriteFile", .remoteCache⟩,
   ⟨"taskfile:CacheNode.WriteChecksum", "os.WriteFile", .remoteCache⟩,
+  ⟨"taskfile:CacheNode.WriteResolvedLocation", "os.WriteFile", .remoteCache⟩,
   ⟨"taskfile:CacheNode.WriteTimestamp", "os.WriteFile", .remoteCache⟩]
 
 abbrev Site := String × String × List String × List (String × List String)
